@@ -190,12 +190,12 @@ def gen_case(rng, force_dir=None):
     if rng.random() < 0.1:
         supplied.append({'name': 'unused', 'cal': wk([0, 1, 2, 3, 4], ['i', 8])})
     edits = []
-    if supplied and rng.random() < 0.22:
+    if supplied and rng.random() < 0.3:
         for r in rng.sample(supplied, rng.randint(1, len(supplied))):
             edits.append([r['name'], gen_calendar(rng)])
     # the first calculation and the observed one share the scheduler OBJECT in half of these cases (a scheduler
     # that remembers capacities across calculations must not answer with the calendar as it was)
-    same_sched = bool(edits) and rng.random() < 0.5
+    same_sched = bool(edits) and rng.random() < 0.6
     return {'edit_same_scheduler': same_sched, 'poke_getters': rng.random() < 0.12,'dir': 'fwd' if fwd else 'bwd', 'tasks': tasks, 'ext': ext, 'links': links, 'link_via_succ': rng.random() < 0.4,
             'edit_calendars': edits,
             'resources': supplied, 'balance': rng.random() < 0.7,
@@ -208,7 +208,8 @@ def gen_aimed_case(rng, force_dir=None):
     the random stream missed); amounts, calendars, clock, bound and root order stay random."""
     c = gen_case(rng, force_dir)
     fwd = c['dir'] == 'fwd'
-    kind = rng.choice(['sideways', 'sideways', 'staggered', 'milestone-summary'] if fwd else ['sideways', 'sideways', 'milestone-summary'])
+    kind = rng.choice(['sideways', 'sideways', 'staggered', 'milestone-summary', 'stale-capacity', 'id-twin'] if fwd
+                      else ['sideways', 'sideways', 'milestone-summary', 'stale-capacity', 'id-twin'])
     c['aimed'] = kind
     c['edit_calendars'] = []
     c['edit_same_scheduler'] = False
@@ -264,6 +265,40 @@ def gen_aimed_case(rng, force_dir=None):
             links.append([t_(base['F']), t_(A2)] if fwd else [t_(A2), t_(base['F'])])
         if rng.random() < 0.3:
             links = [l for l in links if l[0] != t_(D) and l[1] != t_(D)] or links     # without the sideways entry
+        c['tasks'], c['links'] = out, links
+    elif kind == 'stale-capacity':
+        # one resource, a handful of independent tasks on it, a first calculation, then the resource loses working days
+        # (another calendar object, or - decided by the runner - the same calendar edited in place) and the SAME scheduler
+        # object calculates again: whatever scheduler, resource or calendar remembered of the first calculation is wrong now
+        out = [T(ids[i], None, resource='a', est=rng.choice([16, 32, 64, 64, 128])) for i in range(rng.randint(2, 5))]
+        if rng.random() < 0.4:
+            out.append(T(ids[9], None, resource='b', est=64))
+        c['tasks'], c['links'] = out, ([[t_(0), t_(1)]] if rng.random() < 0.3 else [])
+        c['resources'] = [r for r in c['resources'] if r['name'] != 'a'] + [{'name': 'a', 'cal': wk([0, 1, 2, 3, 4], ['i', 8])}]
+        fewer = sorted(rng.sample([0, 1, 2, 3, 4], rng.randint(1, 3)))
+        c['edit_calendars'] = [['a', rng.choice([wk(fewer, ['i', 8]), wk([0, 1, 2, 3, 4], ['i', rng.choice([2, 4])]),
+                                                 ['wdict', None, None, [[d, ['i', 8 if d in fewer else 0]] for d in range(5)]]])]]
+        c['edit_same_scheduler'] = rng.random() < 0.85
+    elif kind == 'id-twin':
+        # a task waits for (backward: releases) two DIFFERENT tasks that carry the same id: a member M of the WBS and a
+        # dated task X of another WBS (ids are unique per WBS only).  The one that binds is X - it ends late (starts
+        # early) - and it is named after M, on the task itself or on the task's parent.
+        i = ids[0]
+        out = [T(i, None, resource='a', est=rng.choice([8, 16])),            # M
+               T(ids[1], None, resource=None, est=None),                      # P, a summary
+               T(ids[2], 1, resource=res(), est=est()),                       # D, the task in question
+               T(ids[3], None, resource=res(), est=est())]
+        far = day_us(rng.randint(25, 40)) if fwd else day_us(-rng.randint(25, 40))
+        c['ext'] = [{'id': i, 'start': far - 2 * DAY if fwd else far, 'end': far if fwd else far + 2 * DAY,
+                     'in_wbs': rng.random() < 0.7, 'est': 8}]
+        on_parent = rng.random() < 0.4
+        tgt = 1 if on_parent else 2
+        if fwd:
+            links = [[t_(0), t_(2)], [['x', 0], t_(tgt)]]
+        else:
+            links = [[t_(2), t_(0)], [t_(tgt), ['x', 0]]]
+        if rng.random() < 0.3:
+            links.reverse()
         c['tasks'], c['links'] = out, links
     elif kind == 'milestone-summary':
         # a summary S that takes part in a dependency (backward: A -> S, forward: S -> A) and holds a MILESTONE whose
@@ -413,6 +448,69 @@ def gen_milestone_summary_case(rng, force_dir=None):
         c['tasks'][p]['milestone'] = True
         c['tasks'][p]['start'] = c['tasks'][p]['end'] = None
     return c
+
+
+def gen_task_aware_case(rng, force_dir=None):
+    """every resource is a user-defined IResource whose capacity depends on the task it is asked for (no capacity for
+    some (task, day) pairs near the project bound): outside the scheduler model, whose capacity is a function of
+    resource and day; judged on the literal clauses of C04 that need no model"""
+    c = gen_case(rng, force_dir)
+    c['edit_calendars'] = []
+    c['ext'] = []
+    c['links'] = [l for l in c['links'] if l[0][0] == 't' and l[1][0] == 't']
+    c['outcome_only'] = True
+    for t in c['tasks']:
+        t['start'] = t['end'] = None            # every date is chosen by the scheduler
+    names = []
+    for t in c['tasks']:
+        if t['resource'] not in names:
+            names.append(t['resource'])
+    have = [r['name'] for r in c['resources']]
+    for nm in names:
+        if nm not in have:
+            c['resources'].append({'name': nm, 'cal': wk([0, 1, 2, 3, 4], ['i', 8])})
+    fwd = c['dir'] == 'fwd'
+    d0 = max(c['pbound'], c['now']) // DAY if fwd else c['pbound'] // DAY
+    blocked = []
+    leaves = [t for i, t in enumerate(c['tasks']) if not any(u['parent'] == i for u in c['tasks'])]
+    for t in rng.sample(leaves, min(len(leaves), rng.randint(1, 3))):
+        for k in rng.sample(range(0, 7), rng.randint(1, 4)):
+            blocked.append([t['id'], d0 + k if fwd else d0 - 1 - k])
+    c['task_aware'] = blocked
+    return c
+
+
+def robust_date_problems(case, out):
+    """C04's clauses that tie a working leaf's dates to its reservations, evaluated directly on an `outcome_only`
+    observation: at most one reservation per day, all on days from the start day up to strictly before the end; forward: the
+    start lies on the first reserved day and the end within the 24 hours following the last reserved day's midnight;
+    backward: the start lies within the first reserved day"""
+    probs = []
+    fwd = case['dir'] == 'fwd'
+    for k in out.get('work', []):
+        dates = k.get('row_dates') or []
+        if not dates or not k['leaf'] or k['milestone']:
+            continue
+        if any(d % DAY for d in dates):
+            probs.append('task %r: a reservation is not dated by a midnight' % (k['id'],))
+            continue
+        ds = sorted(d // DAY for d in dates)
+        if len(set(ds)) != len(ds):
+            probs.append('task %r: two reservations on one day' % (k['id'],))
+        st, en = k['start'], k['end']
+        if st is None or en is None:
+            probs.append('task %r: no dates' % (k['id'],))
+            continue
+        if ds[0] < st // DAY or not ds[-1] * DAY < en:
+            probs.append('task %r: reservations on days %s..%s outside [start day %s, end %s)' % (k['id'], ds[0], ds[-1], st // DAY, en))
+        if fwd:
+            if not k['user_start'] and st // DAY != ds[0]:
+                probs.append('task %r: chosen start on day %s, first reservation on day %s' % (k['id'], st // DAY, ds[0]))
+            if not k['user_end'] and not (ds[-1] * DAY <= en <= (ds[-1] + 1) * DAY):
+                probs.append('task %r: end %s not within the 24 hours after the midnight of the last reserved day %s' % (k['id'], en, ds[-1]))
+        elif not k['user_start'] and not (ds[0] * DAY <= st <= (ds[0] + 1) * DAY):
+            probs.append('task %r: start %s not within the first reserved day %s' % (k['id'], st, ds[0]))
+    return probs
 
 
 def robust_work_problems(case, out):
@@ -625,7 +723,7 @@ def run_property(ctx, pid, fail_bits, mismatch_bits, dirs=('fwd', 'bwd'), extra=
     n_corpus = len(cases)
     while len(cases) < n_corpus + n:
         fd = None if len(dirs) == 2 else dirs[0]
-        cases.append(gen_aimed_case(ctx.rng, fd) if ctx.rng.random() < 0.1 else gen_case(ctx.rng, fd))
+        cases.append(gen_aimed_case(ctx.rng, fd) if ctx.rng.random() < 0.16 else gen_case(ctx.rng, fd))
     if extra_cases:      # a property's own additional stream (callable: drawn after the common stream)
         cases += list(extra_cases(ctx) if callable(extra_cases) else extra_cases)
     n_off = 0
@@ -641,6 +739,10 @@ def run_property(ctx, pid, fail_bits, mismatch_bits, dirs=('fwd', 'bwd'), extra=
     dist = {'offgrid_stream': sum(1 for c, _ in kept if c.get('offgrid')), 'time_of_day_calendar_stream': sum(1 for c, _ in kept if c.get('tod_calendars')), 'calendar_edited_between_calcs': sum(1 for c, _ in kept if c.get('edit_calendars')),
             'aimed_sideways': sum(1 for c, _ in kept if c.get('aimed') == 'sideways'),
             'aimed_staggered_release': sum(1 for c, _ in kept if c.get('aimed') == 'staggered'),
+            'aimed_milestone_summary': sum(1 for c, _ in kept if c.get('aimed') == 'milestone-summary'),
+            'aimed_stale_capacity': sum(1 for c, _ in kept if c.get('aimed') == 'stale-capacity'),
+            'aimed_id_twin_prerequisites': sum(1 for c, _ in kept if c.get('aimed') == 'id-twin'),
+            'calendar_edited_in_place': sum(1 for c, o in kept if o.get('edited_in_place')),
             'calendar_edited_same_scheduler_object': sum(1 for c, _ in kept if c.get('edit_calendars') and c.get('edit_same_scheduler')),
             'offgrid_discarded': len(cases) - len(kept), 'illformed_discarded': 0, 'returned': 0, 'runtime_error': 0, 'crash': 0}
     feats = {}
